@@ -147,17 +147,34 @@ def check_metrics(ctx, idx):
     p = d + np.array([[rng.randint(-4, 4) / 4 for _ in range(shape[1])] for _ in range(shape[0])])
     if rng.random() < 0.3:
         d, p = d[0], p[0]
+    # storage type and magnitude of the full-state data (images are uint8, counts int16/int32, large or tiny physical
+    # units): the same numbers, so the same relative error.  The prediction stays float64, as `predict` returns it.
+    dk = rng.choice(["float64", "float64", "uint8", "int16", "int32", "float32", "huge", "tiny"])
+    if dk in ("uint8", "int16", "int32"):
+        lo, hi = {"uint8": (0, 255), "int16": (-3000, 3000), "int32": (-70000, 70000)}[dk]
+        di = np.array([[rng.randint(lo, hi) for _ in range(np.size(d))]]).reshape(np.shape(d))
+        p = di + (p - d)
+        d = di.astype(dk)
+    elif dk == "float32":
+        d32 = d.astype(np.float32)
+        p = d32.astype(float) + (p - d)
+        d = d32
+    elif dk in ("huge", "tiny"):
+        f = 2.0 ** (400 if dk == "huge" else -400)         # far from 1 but squares still representable
+        d, p = d * f, p * f
+    ctx.count("relerr_data:" + dk)
     ctx.evaluations += 1
-    if np.linalg.norm(d) != 0:
+    if np.linalg.norm(np.asarray(d, dtype=float)) != 0:
         got = float(relative_reconstruction_error(d, p))
         df = [C.frac(v) for v in np.ravel(d)]
         pf = [C.frac(v) for v in np.ravel(p)]
         num2 = sum((a - b) ** 2 for a, b in zip(df, pf))
         den2 = sum(a * a for a in df)
         want = 100 * float(num2 / den2) ** 0.5
-        if not close(got, want, rel=1e-9):
+        # float32 data: numpy takes ‖d‖ in single precision (rounding, not a different definition)
+        if not close(got, want, rel=1e-5 if dk == "float32" else 1e-9):
             ctx.violation("concrete", f"relative_reconstruction_error {got!r} ≠ 100·‖d−p‖/‖d‖ = {want!r}",
-                          {"signature": "relative-error-definition", "data": d.tolist(), "prediction": p.tolist(), "index": idx})
+                          {"signature": "relative-error-definition", "data": d.tolist(), "data_dtype": str(d.dtype), "prediction": p.tolist(), "index": idx})
             return
         if want != 0:
             ctx.nontriv(("relerr", shape, got))
